@@ -276,3 +276,31 @@ Example sample_parallel_nonvacuous :
   pc s = PReturned /\ started s = [(3, 0); (2, 1); (1, 1); (0, 0)]%nat /\
   Permutation [0; 3; 1; 2]%nat (map fst (started s)).
 Proof. split; [vm_compute; reflexivity|]. exact glue_ex_visit. Qed.
+
+(* ------------------------------------------------------------------ *)
+(* Builder.toast_base (Model/ToastBaseGlue.v): the options a caller gives reach the sampling core
+   unchanged -- the coordinate system (an explicit coordsys= wins, else is_planet decides, a
+   panorama uses the sky layout) is the same whether or not a tile filter is given and whatever the
+   worker count, so filtered and unfiltered sampling of one request write the same tiles; depth
+   and worker count are passed through; the recorded number of levels is the sampled depth.  The
+   real method is compared with [toast_base] over every option combination by the correspondence
+   run (harness/corr_C06.py, toast_base_glue). *)
+From Toasty Require Import Model.ToastBaseGlue Proofs.ToastBaseGlueP.
+
+Theorem toast_base_system_rule :
+  forall o, te_planetary (toast_base o) = match tb_coordsys o with Some s => s | None => tb_is_planet o end.
+Proof. exact system_rule. Qed.
+Print Assumptions toast_base_system_rule.
+
+Theorem toast_base_system_independent_of_route :
+  forall o f' par' pano',
+  te_planetary (toast_base (mkTB (tb_is_planet o) pano' (tb_coordsys o) f' par' (tb_depth o)))
+  = te_planetary (toast_base o).
+Proof. exact system_independent_of_route. Qed.
+Print Assumptions toast_base_system_independent_of_route.
+
+Theorem toast_base_passes_options_through :
+  forall o, te_depth (toast_base o) = tb_depth o /\ te_parallel (toast_base o) = tb_parallel o /\
+            te_filtered_core (toast_base o) = tb_filtered o /\ te_tile_levels (toast_base o) = tb_depth o.
+Proof. exact passthrough. Qed.
+Print Assumptions toast_base_passes_options_through.
